@@ -50,6 +50,7 @@ class P(Prop):
     id = "C10"
     design_ref = "DESIGN.md section 5, C10"
     M = "TracklibVerif.Props.C10"
+    MR = "TracklibVerif.Props.C10Reach"
     theorems = [
         (M, "TV.C10.candidate_sound", "STATES[i] is never empty and holds the flag state or sound candidates: existing edge number, point on a segment of its geometry, d < radius, d0 + d1 = edge length"),
         (M, "TV.C10.all_states_sound", "STATES has one such list per observation, in order"),
@@ -86,11 +87,19 @@ class P(Prop):
         (M, "TV.C10.zero_length_edge_candidate", "a candidate edge whose vertices coincide (computeAbsCurv-made) is an ordinary candidate (fix 563eeba): nothing is raised; it yields a state exactly when the vertex is strictly within the radius, and that state is (the vertex, the edge number, 0, 0)"),
         (M, "TV.C10.order_and_stamps_kept", "__mapOnNetwork on one track, every network / decoder / arguments and EVERY assignment of time stamps (reverse order, ties, none): the list of observations — order, positions, time stamps — is handed back as it was"),
         (M, "TV.C10.time_stamps_never_read", "two tracks differing by their time stamps only get the same STATES; with a decoder that reads positions, feature names and obs_noise only, also the same hmm_inference, names, obs_noise column or the same exception: no chronological order is required, none is established"),
+        (MR, "TV.C10.edge_within_unit_reach_is_candidate", "near_edge_is_candidate without its hypothesis on the unit: on a built index, radius >= 0, observation in the extent, newunit = ceil(search_radius / min(csize, lsize)) =: U does not raise, U >= 0, and every edge with a point within U * min(dX, dY) of the observation is among the candidates (C08 neighborhood_unit_complete)"),
+        (MR, "TV.C10.edge_within_radius_is_candidate_on_coarse_index", "if min(csize, lsize) <= min(dX, dY) (numbers of cells vs cell sides) every edge with a point within the SEARCH RADIUS of an observation of the extent is among its candidates: no edge within the radius is missed"),
+        (MR, "TV.C10.edge_within_unit_reach_is_candidate_3d", "edge_within_unit_reach_is_candidate with altitudes: planimetric distances, the index reads x, y only"),
+        (MR, "TV.C10.edge_within_radius_missed", "witness in the model that the condition cannot be dropped: 18 x 18 cells of side 1, radius 5 -> unit 1; the observation (6,3), 3 from edge 0, has no candidate and is flagged; (6,1) is matched (replayed on the real code: corpus/C10/edge_within_radius_not_candidate.json)"),
     ]
     partial = []
-    open_statements = ["completeness of the candidates in terms of the search radius (no edge within the radius is missed) is not claimed by the property and does not hold in general: "
-                       "__mapOnNetwork derives the search unit from the NUMBERS of cells (ceil(search_radius / min(csize, lsize))), not from the cell size; near_edge_is_candidate states "
-                       "the hypothesis under which C08's completeness carries over",
+    open_statements = ["completeness of the candidates in terms of the search radius (no edge within the radius is missed) is not claimed by the property and does not hold in general "
+                       "(edge_within_radius_missed: witness in the model, same answer of the real code, corpus/C10/edge_within_radius_not_candidate.json): "
+                       "__mapOnNetwork derives the search unit from the NUMBERS of cells (U = ceil(search_radius / min(csize, lsize))), not from the cell size. What IS proved: the candidates "
+                       "are complete for the ground distance U * min(dX, dY) (edge_within_unit_reach_is_candidate, from C08's neighborhood_unit_complete), hence for the search radius when "
+                       "min(csize, lsize) <= min(dX, dY) (edge_within_radius_is_candidate_on_coarse_index); both over an exact floor (on floats the boundary distance = U * min(dX, dY) and a "
+                       "quotient within an ulp of an integer may fall on either side; compare() samples them on the real candidate lists with the reach taken 1e-7 short). For indexes "
+                       "extended by later addEdge calls (edges possibly outside the extent) only C08's late_feature_* theorems apply; near_edge_is_candidate keeps the older conditional form",
                        "the decoder's choice among the candidates (which sound candidate is inferred) is C09's subject; here only that the inferred state is one of STATES[k]",
                        "exceptions: the soundness theorems are about a call that returns; returns_on_regular_geometries says when it does (no kept vertical segment, no edge with fewer than two "
                        "vertices, candidates = existing edge numbers, in-range decoder). Outside: ZeroDivisionError of the projection on a vertical segment (finding D16, class "
@@ -126,7 +135,9 @@ class P(Prop):
             "was used before on another (one-edge) network; the oracle is applied to every "
             "track of every call through its own hmm_inference column and measures on Edge.geom as read back from the network after the call; the network state after construction "
             "(geometries with altitudes, abs_curv columns, edge weights (3D cases), node table with altitudes, edge ends, grid) and per track STATES (as sets, and in the real order), hmm_inference, feature names, obs_noise column and "
-            "positions (3D) are compared with the model's. ALTITUDES: 40 % of the cases of every stream (and the enumerated scope enum-z) "
+            "positions (3D) are compared with the model's. REACH: on every returned track with the index built on all edges, compare() also samples edge_within_unit_reach_is_candidate on the REAL "
+            "candidate lists (every edge at a brute-force distance <= U * min(dX, dY) - 1e-7 relative of an observation of the extent must be a candidate; about 4 observations per case; over half of them on a "
+            "coarse index where that reach covers the search radius; about 9 % have an edge within the search radius that is NOT a candidate — the class of the witness edge_within_radius_missed, allowed by the property). ALTITUDES: 40 % of the cases of every stream (and the enumerated scope enum-z) "
             "carry altitudes (20 % of the TIMES stream) — hill (one altitude per planimetric position, lattice or two-decimal values 0..30), plateau (one non-zero altitude everywhere), mixed (some edges 2D: "
             "LINESTRING(x y, ...) next to LINESTRING(x y z, ...) in one file), obs (2D network, observations with altitudes), node tables with altitudes, observations with altitudes half "
             "of the time; such cases run on Model/MapMatchZ (commands net3 / match3), the others on the 2D models. TIME STAMPS: the tracks of the streams above are stamped chronologically (10 s apart); the "
@@ -1174,6 +1185,60 @@ class P(Prop):
             w = self.compare_track(t, m)
             if w:
                 return "call %d, track %d: %s" % (ci, t["ti"], w)
+        return self.reach_check(case, impl_out)
+
+    @staticmethod
+    def dist_to_polyline(q, g):
+        """planimetric distance from q to the polyline g, closed form per segment (independent of tracklib's projection)"""
+        best = min(math.hypot(q[0] - p[0], q[1] - p[1]) for p in g)
+        for a, b in zip(g, g[1:]):
+            dx, dy = b[0] - a[0], b[1] - a[1]
+            n2 = dx * dx + dy * dy
+            if n2 > 0:
+                t = min(1.0, max(0.0, ((q[0] - a[0]) * dx + (q[1] - a[1]) * dy) / n2))
+                best = min(best, math.hypot(q[0] - a[0] - t * dx, q[1] - a[1] - t * dy))
+        return best
+
+    def reach_check(self, case, impl_out):
+        """TV.C10.edge_within_unit_reach_is_candidate / edge_within_radius_is_candidate_on_coarse_index sampled on the REAL
+        candidate lists (a consequence of theorems about the model, so a disagreement, not a verdict: the property does not
+        claim completeness): with U = ceil(radius / min(csize, lsize)) read from the real index, every edge with a point
+        within U * min(dX, dY) of an observation of the extent must be among the candidates neighborhood() answered.
+        Exact arithmetic in the theorem: the reach is taken 1e-7 short here. Counts the observations that have an edge within
+        the search radius that is NOT a candidate (the witness class of edge_within_radius_missed) in self.reach_stats."""
+        grid = (impl_out.get("net") or {}).get("grid")
+        if not grid or case.get("via") == "late" or "late" in case:
+            return None                                                   # (late edges may leave the extent: C08's late_feature_* theorems)
+        xmin, xmax, ymin, ymax, cs, ls = grid
+        if cs < 1 or ls < 1:
+            return None
+        side = min((xmax - xmin) / cs, (ymax - ymin) / ls)
+        st = self.__dict__.setdefault("reach_stats", {"obs": 0, "missed_within_radius": 0, "coarse": 0})
+        for ci, co, pc, t in self.walk(case, impl_out):
+            cand = t.get("cand")
+            if not cand or pc["radius"] < 0:
+                continue
+            U = math.ceil(pc["radius"] / min(cs, ls))
+            geoms = [[[float(p[0]), float(p[1])] for p in g] for g in pc["geoms"]]
+            for k, c in enumerate(cand):
+                if c is None or k >= len(pc["track"]):
+                    continue
+                q = pc["track"][k]
+                if not (xmin <= q[0] <= xmax and ymin <= q[1] <= ymax):
+                    continue
+                st["obs"] += 1
+                st["coarse"] += min(cs, ls) <= side
+                missed = False
+                for n, g in enumerate(geoms):
+                    if not g or n in c:
+                        continue
+                    d = self.dist_to_polyline(q, g)
+                    if d <= U * side * (1 - 1e-7):
+                        return ("call %d, track %d, observation %d: edge number %d has a point at %.9g <= U * min(dX, dY) = %d * %.9g of the observation "
+                                "but is not among the candidates %s of neighborhood(p, unit=%d) (TV.C10.edge_within_unit_reach_is_candidate)"
+                                % (ci, t["ti"], k, n, d, U, side, c, U))
+                    missed = missed or d < pc["radius"] * (1 - 1e-7)
+                st["missed_within_radius"] += missed
         return None
 
     def compare_track(self, impl_out, model_out):
